@@ -20,7 +20,7 @@ var interesting = []byte{0x00, 0xff, 0x7f, 0x80, '"', '\\', '[', ']', '{', '}', 
 
 // Corrupt applies n seeded corruptions to a copy of doc and returns the result.
 func Corrupt(c *simkit.Choices, doc *model.Doc, n int, st *simkit.Stats) ([]byte, []Fault) {
-	b := append([]byte{}, doc.Bytes...)
+	b := simkit.Exact(doc.Bytes)
 	var faults []Fault
 	for i := 0; i < n; i++ {
 		if len(b) == 0 {
@@ -42,6 +42,39 @@ func Corrupt(c *simkit.Choices, doc *model.Doc, n int, st *simkit.Stats) ([]byte
 			}
 		}
 		f := Fault{Pos: pos}
+		if doc.Format == string(model.JSON) && c.N(4) == 0 {
+			// a broken escape inside a string token, optionally moved right in
+			// front of the closing quote (the rest of the string is dropped)
+			var strs []model.Token
+			for _, t := range doc.Tokens {
+				if (t.Kind == "str" || t.Kind == "key") && t.E <= len(b) && t.E-t.S >= 2 {
+					strs = append(strs, t)
+				}
+			}
+			if len(strs) > 0 {
+				t := strs[c.N(len(strs))]
+				sn := jsonSnippets[c.N(len(jsonSnippets))]
+				at := t.S + 1 + c.N(t.E-t.S-1)
+				end := at
+				if c.Bool() {
+					end = t.E - 1 // drop everything up to the closing quote
+				}
+				if at <= end && end <= len(b) {
+					f.Kind, f.Pos, f.Arg = "json-broken-escape", at, end-at
+					nb := simkit.Exact(b[:at])
+					nb = append(nb, sn...)
+					nb = append(nb, b[end:]...)
+					if c.N(3) == 0 && end == t.E-1 {
+						nb = nb[:at+len(sn)+1] // the document ends with this string's closing quote
+						f.Kind = "json-broken-escape-at-end"
+					}
+					b = nb
+					st.Fault("corrupt-" + f.Kind)
+					faults = append(faults, f)
+					continue
+				}
+			}
+		}
 		switch c.N(8) {
 		case 0:
 			f.Kind, f.Arg = "bitflip", c.N(8)
@@ -91,3 +124,6 @@ func HasPayloadlessTyped(b []byte) bool {
 	}
 	return false
 }
+
+var jsonSnippets = []string{`\`, `\u`, `\u1`, `\u12`, `\u123`, `\ud800`, `\ud800\`, `\ud800\u`, `\ud800\u1`, `\ud800\ud`, `\ud800\udc0`,
+	`\udc00\u12`, `\uD83D\uDE0`, `\ud83d\ude00`, `\x`, `\'`, `\u00zz`, `\ud800\u0041`, "\x80", "\xff\xfe", "\xc3", "\xe4\xb8", "\xf0\x9f\x98", "\n", "\x00", `\u0000`}
